@@ -57,15 +57,36 @@ func choiceString(h []rdStep) string {
 	return sb.String()
 }
 
+// chunkReader hands out at most n bytes per Read, like a pipe or a socket does.
+type chunkReader struct {
+	r io.Reader
+	n int
+}
+
+func (c *chunkReader) Read(p []byte) (int, error) {
+	if len(p) > c.n {
+		p = p[:c.n]
+	}
+	return c.r.Read(p)
+}
+
 func runReaderCase(c *rdCase, file []byte, src string, dir string) (string, string) {
 	var r io.Reader
 	var cnt *countingReader
+	var opts []carv2.Option
+	if strings.HasSuffix(src, "+trusted") { // hash verification off: positions and CIDs must be the same
+		opts = append(opts, carv2.WithTrustedCAR(true))
+		src = strings.TrimSuffix(src, "+trusted")
+	}
 	switch src {
 	case "bytes.Reader":
 		r = bytes.NewReader(file)
 	case "io.Reader":
 		cnt = &countingReader{r: bytes.NewReader(file)}
 		r = cnt
+	case "io.Reader/1", "io.Reader/7": // short reads
+		cnt = &countingReader{r: bytes.NewReader(file)}
+		r = &chunkReader{cnt, int(src[len(src)-1] - '0')}
 	case "os.File":
 		p := filepath.Join(dir, "r.car")
 		if err := os.WriteFile(p, file, 0o644); err != nil {
@@ -79,7 +100,7 @@ func runReaderCase(c *rdCase, file []byte, src string, dir string) (string, stri
 		defer os.Remove(p)
 		r = f
 	}
-	br, err := carv2.NewBlockReader(r)
+	br, err := carv2.NewBlockReader(r, opts...)
 	if err != nil {
 		return "open", fmt.Sprintf("NewBlockReader failed on a valid archive: %v", err)
 	}
@@ -170,7 +191,7 @@ func runReaderReplay(args []string) int {
 				}
 				file := c.A.build()
 				cs := choiceString(c.Hist)
-				for _, src := range []string{"bytes.Reader", "io.Reader", "os.File"} {
+				for _, src := range []string{"bytes.Reader", "io.Reader", "os.File", "io.Reader/1", "bytes.Reader+trusted", "io.Reader/7+trusted"} {
 					var cls, msg string
 					func() {
 						defer func() {
